@@ -1076,6 +1076,8 @@ def c06_item(res, item):
 
 def c06(res):
     rng = random.Random(res.seed)
+    if res.shard == 0:
+        core.optimised_interpreter(res, "C06")
     games = []
     n = size(res, 2500, 15000)
     for k in range(n):
@@ -1429,6 +1431,8 @@ def c15_positional_constructor(res, rng):
 def c15(res):
     rng = random.Random(res.seed)
     c15_positional_constructor(res, rng)
+    if res.shard == 0:
+        core.optimised_interpreter(res, "C15")
     games = []
     for i_ in range(size(res, 60, 400)):
         # every model with every way of giving the outcome (ranks, scores, omitted), in turn — not left to chance
@@ -1548,6 +1552,26 @@ def c16(res):
     import p_pred
     for g in games[:: max(1, len(games) // 150)]:
         p_pred.reconfigure_sequence(res, dict(g, teams=[list(t) for t in g["teams"]]), rng, "C16")
+    # players whose mu is exactly 0.0 before the change of unit / origin, and shifts that put a player exactly at 0.0
+    for k_ in range(size(res, 40, 200)):
+        g = gen_game(rng, kind=KINDS[k_ % 5], stratum="zero-mu", n=rng.randint(2, 4), maxsize=3, options=False)
+        sz = len(g["teams"][0])
+        g["teams"] = [(t * sz)[:sz] for t in g["teams"]]
+        if k_ % 2:
+            j_ = rng.randrange(len(g["teams"]))
+            g["teams"][j_][0] = (0.0, g["teams"][j_][0][1])
+        res.case(g); res.count("zero_mu_games")
+        c16_one(res, g, rng, games)
+        m_any = g["teams"][-1][-1][0]
+        if m_any != 0.0:
+            g3 = shift_game(g, -m_any)          # ... lands that player exactly on 0.0
+            try:
+                back = [[(m + m_any, s_) for (m, s_) in t] for t in impl_teams(g3)]
+                mm = teams_close(g, back, impl_teams(g), 4 * rel_budget(g) + 1e-9)
+                if mm:
+                    res.fail("property", "C16: a shift that puts a player exactly at mu = 0.0 is not a pure shift of the posterior: %s" % mm, dict(type="c16", game=g, shift=-m_any))
+            except Exception as e:  # noqa: BLE001
+                res.fail("property", "C16: valid call raised %s" % type(e).__name__, dict(type="game", game=g3))
     # large settled teams at the low edge of the range, shifted up and down
     for _ in range(size(res, 60, 400)):
         g = gen_game(rng, kind=rng.choice(KINDS), stratum="lowedge", options=False)
